@@ -113,7 +113,8 @@ static std::string check_ciphers(const KV &c) {
         if (r != (int)(pt.size() + 16)) return where + "encrypt returned " + std::to_string(r);
         got = ct.bytes();
     } else {
-        ascon::byte_array m(pt.begin(), pt.end()), a(ad.begin(), ad.end()), ct(3, 0x77);
+        // the output array is "resized to the correct size": it starts shorter than, or much longer than, what is needed
+        ascon::byte_array m(pt.begin(), pt.end()), a(ad.begin(), ad.end()), ct((tonum(c, "pos") & 0x800) ? pt.size() + 16 + 37 : 3, 0x77);
         if (ov == 1) o->encrypt(ct, m); else o->encrypt(ct, m, a);
         got.assign(ct.begin(), ct.end());
     }
@@ -135,7 +136,7 @@ static std::string check_ciphers(const KV &c) {
         Buf sh(7);
         if (o->decrypt(m.p, sh.p, 7, a.p, a.n) >= 0) return where + "7-byte input accepted";
     } else {
-        ascon::byte_array a(ad.begin(), ad.end()), f(forged.begin(), forged.end()), g(ct2.begin(), ct2.end()), m(5, 0x42);
+        ascon::byte_array a(ad.begin(), ad.end()), f(forged.begin(), forged.end()), g(ct2.begin(), ct2.end()), m((tonum(c, "pos") & 0x1000) ? pt.size() + 29 : 5, 0x42);
         bool ok = ov == 1 ? o->decrypt(m, f) : o->decrypt(m, f, a);
         if (ok) return where + "forged packet accepted";
         if (!m.empty()) return where + "byte_array decrypt failure left " + num(m.size()) + " bytes in the output array";
